@@ -13,6 +13,8 @@ frame contracts of the mechanisms; the thread clause is NOT decided (no concurre
                          on bounded shapes): assignment / deletion / augmented-assignment targets and receivers of mutating method calls
                          are Python locals, context.vars / exported_vars / blocks / eval_ctx.*, _loop_vars, _block_vars, buffers,
                          derived-context temporaries and Namespace items - never an attribute or item of `environment` or of a template.
+                         C29.frame.emitted.item_store_guarded.*: an item store on a template variable is dominated by the Namespace guard
+                         for that variable (visit_Assign / visit_AssignBlock on every target shape).
   C29.frame.filters.*    = C19.filters.frame (contracts/c19.py, which re-runs the frame clauses of contracts/c22.py): re-listed here.
   C29.module.pure.*      the cached default module is built by make_module() WITHOUT variables, exactly once, and an importing
                          context with extra globals gets an uncached module (clause of contracts/c05.py DefaultModule, same run).
@@ -105,6 +107,11 @@ TEMPLATES = {
     "t_recursive": "{% for n in tree recursive %}{{ n.v }}({{ loop(n.c) }}){% endfor %}",
     "t_with_filter_block": "{% with z = b %}{% filter upper %}{{ s }}{{ z }}{% endfilter %}{% endwith %}{% set blk %}x{{ a }}{% endset %}{{ blk }}",
     "t_autoescape": "{% autoescape true %}{{ s }}{{ '<' }}{% endautoescape %}{{ '<' }}",
+    "t_blockset_attr_dict": "{% set c.x %}42{% endset %}{{ c }}",
+    "t_blockset_attr_filtered": "{% set c.x | upper %}ab{% endset %}{{ c }}",
+    "t_blockset_attr_rows": "{% for r in rows %}{% set r.x %}{{ loop.index }}{% endset %}{% endfor %}{{ rows }}",
+    "t_set_attr_rows": "{% for r in rows %}{% set r.x = 1 %}{% endfor %}{{ rows }}",
+    "t_blockset_attr_ns": "{% set ns = namespace(n='') %}{% for i in b %}{% set ns.n %}{{ ns.n }}{{ i }}{% endset %}{% endfor %}{{ ns.n }}{% set ns.f | upper %}x{% endset %}{{ ns.f }}",
     "t_cycler": "{% set cy = cycler('x', 'y') %}{% for i in b %}{{ cy.next() }}{% endfor %}{% set j = joiner(',') %}{% for i in b %}{{ j() }}{{ i }}{% endfor %}",
 }
 # the only template of the family with state that is DESIGNED to persist in a cross-render cache (F20)
@@ -985,6 +992,9 @@ def emitted_tasks():
     tt = TemplateEmitTask("C29", "C29.frame.emitted.visit_Template", template_writes_pred, replay_fn=replay_emitted, min_paths=8, n_blocks=1, n_imports=1)
     tt.bound_text = "template with 1 block and 1 imported name (body abstract)"
     ts.append(tt)
+    ts += c03.store_guard_tasks(prop="C29", prefix="C29.frame.emitted.item_store_guarded")
+    for t_ in ts[-14:]:
+        t_.replay_fn = replay_emitted
     ts.append(FnTask("C29", "C29.frame.emitted.helpers", helper_emission, "emission", replay_emitted))
     ts.append(Bounded("C29", "C29.frame.emitted.generated_family", generated_family, "bounded", replay_emitted))
     return ts
@@ -1008,6 +1018,179 @@ def template_writes_pred(sc, tree, ph, txt):
         else:
             fails.append(f"unexpected module level statement {type(stmt).__name__}")
     return fails
+
+
+# =====================================================================================================================
+# C29 eval-context scopes: context.eval_ctx of an imported macro is the EvalContext of the CACHED module (Template._module)
+# =====================================================================================================================
+# Generated code of a macro reads and writes `context.eval_ctx` of the context it closes over.  For a macro reached through
+# {% import %} / {% from %} that context belongs to the cached TemplateModule, so the object outlives the render and is shared by
+# all renders and threads.  Hence (sequential clause) every modification must be undone on EVERY exit path of the scope, and
+# (thread clause / C29.cache.immutable) the object should not be written at all.
+
+def _is_eval_ctx_store(n):
+    from pyvc import emit
+    return isinstance(n, ast.Attribute) and isinstance(n.ctx, ast.Store) and emit.call_name(n.value) == "context.eval_ctx"
+
+
+def scoped_restore_pred(sc, tree, ph, txt):
+    """visit_ScopedEvalContextModifier: `t = context.eval_ctx.save()` is followed by try: <option stores, body> finally:
+    context.eval_ctx.revert(t) - the saved state is restored when the body is left by continue / break / return / an exception too"""
+    from pyvc import emit
+    if sc.outcome == "raise" or tree is None:
+        return []
+    body = list(tree.body)
+    if not body or not (isinstance(body[0], ast.Assign) and isinstance(body[0].value, ast.Call) and emit.call_name(body[0].value) == "context.eval_ctx.save"
+                        and isinstance(body[0].targets[0], ast.Name)):
+        return [f"the scope does not start by saving the eval context: {txt!r}"]
+    saved = body[0].targets[0].id
+    fails = []
+
+    def is_revert(stmt):
+        return (isinstance(stmt, ast.Expr) and isinstance(stmt.value, ast.Call) and emit.call_name(stmt.value) == "context.eval_ctx.revert"
+                and len(stmt.value.args) == 1 and isinstance(stmt.value.args[0], ast.Name) and stmt.value.args[0].id == saved)
+
+    rest = body[1:]
+    if len(rest) == 1 and isinstance(rest[0], ast.Try) and not rest[0].handlers and not rest[0].orelse and len(rest[0].finalbody) == 1 and is_revert(rest[0].finalbody[0]):
+        inner = rest[0].body
+        if any(is_revert(x) for x in ast.walk(ast.Module(body=inner, type_ignores=[])) if isinstance(x, ast.Expr)):
+            fails.append("the saved state is also reverted inside the protected body")
+        return fails
+    protected = any(isinstance(x, ast.Try) and x.finalbody for x in rest)
+    if not protected:
+        fails.append("context.eval_ctx is modified for the scope but restored by a plain statement after the body: `continue`, `break` or an exception in the "
+                     "body skips the revert (no try/finally), so the modification outlives the scope - and the render, when the context is a cached module's")
+    else:
+        fails.append(f"unexpected shape of the protected scope: {txt!r}")
+    return fails
+
+
+def eval_ctx_store_pred(sc, tree, ph, txt):
+    """C29.cache.immutable (thread clause): generated code does not write attributes of context.eval_ctx - for the macros of an
+    imported template that object is reachable from the cross-render cache Template._module and shared by concurrent renders"""
+    if sc.outcome == "raise" or tree is None:
+        return []
+    stores = [n for n in ast.walk(tree) if _is_eval_ctx_store(n)]
+    from pyvc import emit
+    reverts = [n for n in ast.walk(tree) if isinstance(n, ast.Call) and emit.call_name(n) == "context.eval_ctx.revert"]
+    if stores or reverts:
+        return [f"generated code modifies the shared object context.eval_ctx in place ({len(stores)} attribute stores, {len(reverts)} revert calls): inside a macro of an "
+                "imported template this is the EvalContext of the cached module, read by every concurrent render (set blocks, pass_eval_context filters, volatile frames)"]
+    return []
+
+
+EVAL_LIB = {
+    "ec_lib": "{% macro show(v) %}{% set y %}{{ v }}{% endset %}{{ [y, v]|join(',') }}{% endmacro %}"
+              "{% macro cont(v) %}{% for i in [1] %}{% autoescape true %}{% continue %}{% endautoescape %}{% endfor %}{% endmacro %}"
+              "{% macro brk(v) %}{% for i in [1] %}{% autoescape true %}{% break %}{% endautoescape %}{% endfor %}{% endmacro %}"
+              "{% macro boom(x) %}{% autoescape true %}{{ x.nope.nope }}{% endautoescape %}{% endmacro %}"
+              "{% macro plain(v) %}{% autoescape true %}{{ v }}{% endautoescape %}{% endmacro %}"
+              "{% macro slow(v) %}{% autoescape true %}{% for i in range(50) %}{{ v }}{% endfor %}{% endautoescape %}{% endmacro %}"
+              "{% macro many(v) %}{% for i in range(50) %}{% set y %}{{ v }}{% endset %}{{ [y, v]|join(',') }};{% endfor %}{% endmacro %}",
+    "ec_good": "{% import 'ec_lib' as lib %}{{ lib.show('<b>') }}",
+    "ec_plain": "{% import 'ec_lib' as lib %}{{ lib.plain('<') }}{{ lib.show('<b>') }}",
+    "ec_continue": "{% import 'ec_lib' as lib %}{{ lib.cont(1) }}{{ lib.show('<b>') }}",
+    "ec_break": "{% from 'ec_lib' import brk, show %}{{ brk(1) }}{{ show('<b>') }}",
+    "ec_bad": "{% import 'ec_lib' as lib %}{{ lib.boom(1) }}",
+    "ec_threads": "{% import 'ec_lib' as lib %}{{ lib.slow('<') }}|{{ lib.many('<b>') }}",
+    "ec_local_continue": "{% for i in [1, 2] %}{% autoescape true %}{{ '<' }}{% continue %}{% endautoescape %}{% endfor %}{% set y %}{{ '<' }}{% endset %}{{ [y, '<']|join }}",
+}
+
+
+def eval_ctx_env():
+    import jinja2
+    return jinja2.Environment(loader=jinja2.DictLoader(EVAL_LIB), extensions=["jinja2.ext.loopcontrols"])
+
+
+def eval_ctx_sequential():
+    """-> [(variant, detail)]: the hunt inputs of C29_2 and neighbours, single-threaded"""
+    out = []
+    iso = {n: render_once(eval_ctx_env(), n, {}) for n in EVAL_LIB if n != "ec_lib"}
+    for variant, seq in (("plain-scope", ["ec_plain", "ec_plain", "ec_good"]), ("continue", ["ec_continue", "ec_continue", "ec_good"]),
+                         ("break", ["ec_break", "ec_break", "ec_good"]), ("exception", ["ec_bad", "ec_good", "ec_plain"]),
+                         ("same-template-continue", ["ec_local_continue", "ec_local_continue"])):
+        env = eval_ctx_env()
+        got = [(n, render_once(env, n, {})) for n in seq]
+        bad = [(n, r) for n, r in got if r != iso[n]]
+        if bad:
+            n, r = bad[0]
+            out.append((variant, f"sequence {seq} in one environment: {n} rendered {r!r}, isolated render {iso[n]!r} ({variant} inside {{% autoescape %}} in a macro of the "
+                                 "imported, cached module leaves its eval context modified)"))
+    return out
+
+
+def eval_ctx_threads(threads=8, rounds=150):
+    """the hunt input of C29_1: concurrent renders of a template whose imported macros use {% autoescape %}"""
+    import sys
+    import threading
+    iso = render_once(eval_ctx_env(), "ec_threads", {})
+    env = eval_ctx_env()
+    env.get_template("ec_threads").render()
+    results = []
+    old = sys.getswitchinterval()
+    sys.setswitchinterval(1e-6)
+    try:
+        def work():
+            for _ in range(rounds):
+                results.append(render_once(env, "ec_threads", {}))
+        ths = [threading.Thread(target=work) for _ in range(threads)]
+        for t in ths:
+            t.start()
+        for t in ths:
+            t.join()
+    finally:
+        sys.setswitchinterval(old)
+    after = render_once(env, "ec_threads", {})
+    diff = [r for r in results if r != iso]
+    if diff or after != iso:
+        r = diff[0] if diff else after
+        txt = r[1] if r[0] == "ok" else r
+        return f"{len(diff)} of {len(results)} renders from {threads} threads differ from the isolated render (e.g. {str(txt)[-60:]!r} vs {str(iso[1])[-40:]!r}); single render afterwards {'differs too' if after != iso else 'is equal'}"
+    return None
+
+
+def eval_ctx_histories(task, tier, seed):
+    rs = []
+    seq = eval_ctx_sequential()
+    task.bound_text = "5 single-threaded sequences (plain scope / continue / break / exception in an imported macro, continue in the template itself) and 8 threads x 150 renders"
+    rs.append(Res("C29.bounded.eval_ctx_histories", "bounded-ok", "native", 0, f"{5 - len(seq)} of 5 sequential histories repeat", "bounded"))
+    for variant, det in seq:
+        rs.append(Res("C29.bounded.eval_ctx_histories", "refuted", "native", 0, det[:900], "bounded", {"key": "sequential-leak", "variant": variant}))
+    th = eval_ctx_threads()
+    if th:
+        rs.append(Res("C29.bounded.eval_ctx_histories", "refuted", "native", 0, th[:900], "bounded", {"key": "threads", "variant": "threads"}))
+    return rs
+
+
+def replay_eval_ctx(w):
+    v = (w or {}).get("variant")
+    if v == "threads" or (w or {}).get("key") == "eval_ctx-store":
+        for _ in range(4):
+            th = eval_ctx_threads()
+            if th:
+                return (True, th)
+        return (False, "concurrent renders equal the isolated render in 4 attempts")
+    seq = eval_ctx_sequential()
+    return (bool(seq), "; ".join(d for _v, d in seq[:2])[:1200] or "sequential histories with eval-context scopes in imported macros repeat")
+
+
+class KeyedEmit(EmitTask):
+    def __init__(self, *a, key="?", **k):
+        EmitTask.__init__(self, *a, **k)
+        self._key = key
+
+    def finding_key(self, res):
+        return self._key
+
+
+def eval_ctx_tasks():
+    ts = [KeyedEmit("C29", "C29.frame.emitted.eval_ctx_scope.visit_ScopedEvalContextModifier", "jinja2.compiler:CodeGenerator.visit_ScopedEvalContextModifier",
+                    N.ScopedEvalContextModifier, scoped_restore_pred, mode="stmts", buffers=(None, "t_buf"), replay_fn=replay_eval_ctx, min_paths=4, key="revert-not-in-finally")]
+    for cls in ("ScopedEvalContextModifier", "EvalContextModifier"):
+        ts.append(KeyedEmit("C29", f"C29.cache.immutable.eval_ctx.visit_{cls}", f"jinja2.compiler:CodeGenerator.visit_{cls}", getattr(N, cls), eval_ctx_store_pred,
+                            mode="stmts", buffers=(None,), replay_fn=replay_eval_ctx, min_paths=2, key="eval_ctx-store"))
+    ts.append(Bounded("C29", "C29.bounded.eval_ctx_histories", eval_ctx_histories, "bounded", replay_eval_ctx))
+    return ts
 
 
 # =====================================================================================================================
@@ -1379,7 +1562,7 @@ def replay_histories(w):
 
 
 N_HIST = 3
-_ALL = (entry_tasks() + emitted_tasks() + [FiltersProxy(i, 3) for i in range(3)] + policy_tasks()
+_ALL = (entry_tasks() + emitted_tasks() + [FiltersProxy(i, 3) for i in range(3)] + policy_tasks() + eval_ctx_tasks()
          + [Bounded("C29", "C29.cache.immutable", cache_immutable, "bounded", replay_cache)]
          + [Bounded("C29", f"C29.bounded.histories[{i}]", bounded_histories(i, N_HIST), "bounded", replay_histories) for i in range(N_HIST)])
 _HEAVY = ("visit_For", "visit_Template", "visit_Macro", "visit_CallBlock", "runtime.new_context[vars=dict,globals=dict,locals=dict]")
